@@ -47,7 +47,7 @@ var (
 	// LetNames is the pool of names bound by let statements and parameters; queries
 	// mention them both bound and unbound so that the prelude in force is visible in the SQL.
 	LetNames = []string{"x", "y", "n", "s", "lim"}
-	Columns  = []string{"a", "b", "c", "k", "EventType", "State", "`my col`", "`semi;col`", "m", "`tick``tock`", "`d``;b`", "`back\\`", "`sl\\;`"}
+	Columns  = []string{"a", "b", "c", "k", "EventType", "State", "`my col`", "`semi;col`", "m", "`tick``tock`", "`d``;b`", "`back\\`", "`sl\\;`", "`nb\u00a0sp`", "`#hash`", "`trail  `"}
 	Tables   = []string{"T", "U", "Logs", "StormEvents", "`my table`", "`t;1`"}
 	// KnownFuncs lists every built-in of the function table with a correct arity.
 	KnownFuncs = []struct {
@@ -62,6 +62,7 @@ var (
 	Strings      = []string{
 		`"abc"`, `'abc'`, `"a;b"`, `'x;//y'`, `"// not a comment"`, `"it's"`, `'say "hi"'`, `"esc\"q;"`, `'t\tn\n'`,
 		`""`, `"héllo wörld"`, `"日本;語"`, `'semi;colon;'`, `"back\\slash"`, "\"bad\xffutf8;\"", "'nul\x00;byte'",
+		"\"ctl\x1a\x01\x7f;\"", "\"bom\ufeffinside\"", "'trailing space  '", "'  leading; and\ttab'", "\"#not a comment\"", "\"-- nor this;\"",
 	}
 	Numbers = []string{"0", "1", "5", "42", "3.14", "1e3", "0x1F", "007", "10", "100", ".5", "2.50"}
 )
@@ -468,7 +469,7 @@ type Layout struct {
 	Exotic bool
 }
 
-var commentBodies = []string{"", " c", " a;b", " \xff\xfe;", " \x00;", " let x = 1;", "; ;", " \"quote", " 'q;", " `tick;", " // nested", " héllo;", " T | count;"}
+var commentBodies = []string{"", " c", " a;b", " \xff\xfe;", " \x00;", " \x1a", "#!x;", " trailing blanks   ", " let x = 1;", "; ;", " \"quote", " 'q;", " `tick;", " // nested", " héllo;", " T | count;"}
 
 // NL returns the line terminator.
 func (l *Layout) NL() string {
